@@ -308,6 +308,7 @@ def search(ctx, disagreements, proof_info):
 
 F_WD0 = "C19-watchdog-reset-delay-0"
 F_I2C = "C19-i2c-busy-command-glitch"
+F_FLUSH = "C19-uart-autoflush-duplicate"
 
 
 def i2c_busy_witness():
@@ -325,7 +326,8 @@ def probes(ctx):
     try:
         return _probes(ctx)
     except Exception as e:       # a changed implementation that no longer builds / runs: reported, not a crash
-        return [(F_WD0, True, "probe raised %r" % (e,)), (F_I2C, True, "probe raised %r" % (e,))]
+        return [(F_WD0, True, "probe raised %r" % (e,)), (F_I2C, True, "probe raised %r" % (e,)),
+                (F_FLUSH, True, "probe raised %r" % (e,))]
 
 
 def _probes(ctx):
@@ -348,6 +350,10 @@ def _probes(ctx):
     # fixed 86eb66e: command written while the I2C machine is busy
     r = replay_with_monitor(L.I2cMasterInst(3), i2c_busy_witness())
     out.append((F_I2C, r is not None, ("I2CMaster: command written while busy; cycle %d: %s" % r) if r else "witness passes"))
+    # fixed: UART.add_auto_tx_flush - the flush branch overrode source.ready, so a character taken by the PHY in a cycle
+    # with timer.done and flush_count != 0 stayed in the TX FIFO and was sent twice
+    r, _ = c19glue2.flush_dup_witness()
+    out.append((F_FLUSH, r is not None, ("UART.add_auto_tx_flush: cycle %d: %s" % r) if r else "witness passes"))
     # notes (outside the property's quantifier, DESIGN 7.C19 / 8.3): kept visible in the evidence
     ctx.cov.notes.append("SPIMaster: length = 0 or length > 2^bits_for(data_width-1) never leaves RUN; clk_divider < 2 never "
                          "leaves START/STOP; lowering clk_divider at run time below the running counter stalls the clock "
@@ -358,6 +364,14 @@ def _probes(ctx):
                          "loopbackAligned tw; 0x55555555 works, 0x55555556 does not); a +-2 % transmitter is recovered for "
                          ">= 9.375 cycles per bit (proved) and not for 4 or 9.06 cycles per bit (kernel-checked witnesses): "
                          "the receiver samples once per bit without oversampling")
+    ctx.cov.notes.append("SPIMaster: the pads.cs_n register resets to 0 - chip select is asserted for one cycle after reset "
+                         "without any clock pulse (a LiteX SPISlave on the other side answers with start/irq, length 0); "
+                         "a platform pad signal, outside the statement (kept as the example before spi_link_served)")
+    ctx.cov.notes.append("Stream2Wishbone: a byte offered in the cycle after a timeout (timer.done still high in RECEIVE-CMD) is "
+                         "accepted but swallowed; the timeout covers the whole command, not the gap between bytes; "
+                         "data_width/address_width 8 pass the assert but cannot be elaborated (Signal(int(log2(1)))); "
+                         "length 0 runs until the timeout in the simulator (256 words in Verilog, C01's area) - outside the "
+                         "statement, modelled as coded")
     ctx.cov.notes.append("bitbang.I2CMaster: w.oe gates only the SDA driver; w.scl = 0 pulls SCL low also with w.oe = 0 (the "
                          "field description says oe = 0 disconnects both drivers; the software driver relies on the code's "
                          "behaviour) - documentation mismatch, modelled as coded")
